@@ -5,6 +5,7 @@
 
 pub mod api;
 pub mod baton;
+pub mod battery;
 pub mod cmp;
 pub mod ctx;
 pub mod explore;
